@@ -34,3 +34,51 @@ package middleware
 //@     where strings.HasSuffix(old(r.Host), "." + websiteEndpoint) && len(old(r.Host)) > len(websiteEndpoint) + 1 &&
 //@         $req.URL.Path == "/" + old(r.Host)[:len(old(r.Host))-len(websiteEndpoint)-1] + old(r.URL.Path)
 //@ effect[C33:fallback-path-untouched] every fallbackHandler.ServeHTTP(_, $req) where $req.URL.Path == old(r.URL.Path)
+
+// CORS (C34). Wildcard patterns, origin / method / header matching, rule selection.
+//@ func wildcardMatch
+//@ ensures[C34:wildcard] result == specWildcard(pattern, value)
+
+//@ func matchOrigin
+//@ pure
+//@ ensures[C34:origin-iff] result1 == (exists k :: 0 <= k && k < len(allowedOrigins) &&
+//@     specWildcard(strings.ToLower(allowedOrigins[k]), strings.ToLower(origin)))
+//@ loop 0 invariant 0 <= iter__ && iter__ <= len(allowedOrigins) &&
+//@     forall k :: 0 <= k && k < iter__ ==> !specWildcard(strings.ToLower(allowedOrigins[k]), strings.ToLower(origin))
+
+//@ func matchMethod
+//@ pure
+//@ ensures[C34:method-iff] result == (exists k :: 0 <= k && k < len(allowedMethods) &&
+//@     allowedMethods[k] == strings.ToUpper(strings.TrimSpace(method)))
+//@ loop 0 invariant 0 <= iter__ && iter__ <= len(allowedMethods) &&
+//@     forall k :: 0 <= k && k < iter__ ==> allowedMethods[k] != strings.ToUpper(strings.TrimSpace(method))
+
+//@ func matchRequestedHeaders
+//@ pure
+//@ ensures[C34:headers-iff] result == (len(requestedHeaders) == 0 ||
+//@     (exists s :: 0 <= s && s < len(allowedHeaders) && allowedHeaders[s] == "*") ||
+//@     (forall i :: 0 <= i && i < len(requestedHeaders) ==> exists j :: 0 <= j && j < len(allowedHeaders) &&
+//@         specWildcard(strings.ToLower(allowedHeaders[j]), strings.ToLower(requestedHeaders[i]))))
+//@ loop 0 invariant 0 <= iter__ && iter__ <= len(requestedHeaders) && len(requestedHeaders) > 0 &&
+//@     !(exists s :: 0 <= s && s < len(allowedHeaders) && allowedHeaders[s] == "*") &&
+//@     forall i :: 0 <= i && i < iter__ ==> exists j :: 0 <= j && j < len(allowedHeaders) &&
+//@         specWildcard(strings.ToLower(allowedHeaders[j]), strings.ToLower(requestedHeaders[i]))
+//@ loop 1 invariant 0 <= iter__ && iter__ <= len(allowedHeaders) && !matched &&
+//@     forall j :: 0 <= j && j < iter__ ==> !specWildcard(strings.ToLower(allowedHeaders[j]), strings.ToLower(requestedHeader))
+
+//@ func findMatchingRule
+//@ ensures[C34:selected-rule-matches] result2 ==> result != nil && specRuleMatches(*result, origin, method, requestedHeaders, preflight)
+//@ ensures[C34:none-matches] !result2 ==> forall k :: 0 <= k && k < len(rules) ==> !specRuleMatches(rules[k], origin, method, requestedHeaders, preflight)
+//@ loop 0 invariant 0 <= idx && idx <= len(rules) &&
+//@     forall k :: 0 <= k && k < idx ==> !specRuleMatches(rules[k], origin, method, requestedHeaders, preflight)
+
+// The CORS middleware: Access-Control-Allow-Origin is set, and a preflight is answered 200, only after
+// findMatchingRule found a rule for this request's origin, method and requested headers.
+//@ func MakeCORSMiddlewareWithResolver$1
+//@ context
+//@ mode effects
+//@ requires r != nil && w != nil
+//@ effect[C34:allow-origin-only-by-matching-rule] every headers.Set($k, _) if $k == accessControlAllowOriginHeader
+//@     needs before findMatchingRule(_, $origin, _, _, _) -> (_, _, $ok) where $ok
+//@ effect[C34:preflight-ok-only-by-matching-rule] every w.WriteHeader($code) if $code != 403
+//@     needs before findMatchingRule(_, _, _, _, _) -> (_, _, $ok) where $ok
